@@ -225,21 +225,29 @@ def buildList : List F → Except Err (List F)
     .ok (x :: xs)
 end
 
+def allBool : List F → Bool
+  | [] => true
+  | a :: as => a.isBoolSorted && allBool as
+
+def noneBool : List F → Bool
+  | [] => true
+  | a :: as => !a.isBoolSorted && noneBool as
+
 mutual
-/-- well-sortedness: connectors applied at their arity, both sides of `=` of the same sort,
-    arguments of arithmetic comparisons and atoms not connectors -/
+/-- well-sortedness: connectors applied at their arity, boolean connectives to boolean arguments, both
+    sides of `=` of the same sort, order and distinctness to integer-sorted arguments -/
 def F.ws : F → Bool
   | .lit _ => true
   | .num _ => true
   | .atom _ _ args => F.wsList args
   | .conn .imp [a, b] => F.ws a && F.ws b && a.isBoolSorted && b.isBoolSorted
-  | .conn .and as => F.wsList as && !as.isEmpty
-  | .conn .or as => F.wsList as && !as.isEmpty
+  | .conn .and as => F.wsList as && !as.isEmpty && allBool as
+  | .conn .or as => F.wsList as && !as.isEmpty && allBool as
   | .conn .not [a] => F.ws a && a.isBoolSorted
   | .conn .eq [a, b] => F.ws a && F.ws b && (a.isBoolSorted == b.isBoolSorted)
-  | .conn .lt [a, b] => F.ws a && F.ws b
-  | .conn .le [a, b] => F.ws a && F.ws b
-  | .conn .distinct as => F.wsList as && !as.isEmpty
+  | .conn .lt [a, b] => F.ws a && F.ws b && !a.isBoolSorted && !b.isBoolSorted
+  | .conn .le [a, b] => F.ws a && F.ws b && !a.isBoolSorted && !b.isBoolSorted
+  | .conn .distinct as => F.wsList as && !as.isEmpty && noneBool as
   | .conn _ _ => false
 def F.wsList : List F → Bool
   | [] => true
